@@ -205,9 +205,10 @@ def run_cases(ctx, specs):
 
 
 def run(ctx):
-    ok = kernel_setup(ctx, needed=())
+    ok = kernel_setup(ctx, needed=(), soft=("py2v_design.py",))  # Gen/DesignGen.v: the column order of the design matrix as the source has it now
     if ok:
         ctx.build_props()
+        ctx.build_props("Props/C08g.vo")  # generated design-matrix builders = model: [1 | offset indicators | dt, dt^2, ..]
         ctx.build_props("Props/C04r.vo")  # the Bayes identity over the reals, no algebraic premise (Base/Rstruct.v: MathComp field structure on R)
     else:
         ctx.obligations += 1
